@@ -237,8 +237,84 @@ def r5_sorted(ctx, F):
               "sorted() no longer reverses the comparison inside the comparator", fn=f)
 
 
+LOSSY_INT_TO_FLOAT = re.compile(r"(NumRef::<'v>::as_float|StarlarkIntRef::<'v>::to_f64|StarlarkBigInt::to_f64|"
+                                r"ToPrimitive for num_bigint::BigInt>::to_f64|ToPrimitive for num_bigint::BigUint>::to_f64|"
+                                r"StarlarkInt::to_f64)$")
+NUM_CMP_ENTRIES = [r"<values::types::num::value::NumRef<'v> as std::cmp::Ord>::cmp$",
+                   r"<values::types::num::value::NumRef<'v> as std::cmp::PartialEq>::eq$"]
+
+
+def _direct_reach(F, start, limit=400):
+    seen, work = {}, [start]
+    while work and len(seen) < limit:
+        f = work.pop()
+        if f.uid in seen:
+            continue
+        seen[f.uid] = f
+        for c in f.calls:
+            if c.indirect or c.bb in f.cleanup:
+                continue
+            g = F.fns.get(c.callee_uid())
+            if g is not None and g.crate == "starlark":
+                work.append(g)
+        for cl in F.closures_of(f):
+            work.append(cl)
+    return list(seen.values())
+
+
+def r6_exact_mixed_comparison(ctx, F):
+    """equality and ordering between an int and a float are decided on the mathematical values: nothing reachable from
+    NumRef's Ord/PartialEq rounds an integer of arbitrary size to a float first (that makes two different big integers
+    equal to one float: equality stops being transitive and a sorted list is no longer ordered)"""
+    n = 0
+    for pat in NUM_CMP_ENTRIES:
+        e = F.one(pat)
+        for f in _direct_reach(F, e):
+            for c in f.calls:
+                if c.indirect or c.bb in f.cleanup:
+                    continue
+                n += 1
+                if LOSSY_INT_TO_FLOAT.search(c.name):
+                    ctx.bad("C09.R6", "lossy-int-to-float:%s<-%s" % (short_fn(c.name), short_fn(top_fn(F, f).qpath)),
+                            "number comparison (%s) reaches `%s` in `%s`: an integer beyond 2^53 is rounded to a float "
+                            "before it is compared, so e.g. 2**53+1 == float(2**53) and equality is not transitive"
+                            % (short_fn(e.qpath), c.name, short_fn(f.qpath)), fn=f, line=c.line)
+            for st in f.stmts:
+                if st.kind == "cast IntToFloat" and st.bb not in f.cleanup and len(st.ops) > 1:
+                    src = st.ops[1].split(" -> ")[0].strip()
+                    n += 1
+                    ctx.check(src in ("i8", "i16", "i32", "u8", "u16", "u32"), "C09.R6",
+                              "int-to-float-cast:%s:%s" % (short_fn(top_fn(F, f).qpath), src),
+                              "only integers of at most 32 bits are cast to f64 (exact)",
+                              "`%s` casts %s to a float inside number comparison: not exact beyond 2^53"
+                              % (short_fn(f.qpath), src), fn=f, line=st.line)
+        ctx.ok("C09.R6", "exact:" + short_fn(e.qpath), "no lossy integer-to-float conversion is reachable")
+    # the three numeric value types compare only through NumRef
+    for name, pat in NUM_CLASS.items():
+        im = sv_impls(F, pat)
+        if len(im) != 1:
+            continue
+        for meth, target in (("equals", NUM_CMP_ENTRIES[1]), ("compare", NUM_CMP_ENTRIES[0])):
+            b = method_body(F, im[0], meth)
+            if b is None:
+                ctx.bad("C09.R6", "funnel:%s.%s" % (name, meth), "anchor-missing: %s::%s" % (name, meth))
+                continue
+            fs = _direct_reach(F, b, limit=60)
+            hit = any(re.search(target, g.qpath) for g in fs) or any(
+                re.search(r"NumRef<'_> as std::cmp::(Ord|PartialOrd|PartialEq)>|"
+                          r"Option<values::types::num::value::NumRef<'_>> as std::cmp::PartialEq>::eq$", c.full)
+                for g in fs[:3] for c in g.calls if c.bb not in g.cleanup)
+            lossy = [c for g in fs[:1] for c in g.calls if LOSSY_INT_TO_FLOAT.search(c.name) and c.bb not in g.cleanup]
+            ctx.check(hit and not lossy, "C09.R6", "funnel:%s.%s" % (name, meth),
+                      "%s::%s is decided by NumRef's comparison" % (name, meth),
+                      "%s::%s %s" % (name, meth, "converts an integer to a float itself" if lossy else
+                                     "no longer goes through NumRef's comparison"), fn=b)
+    ctx.floor("C09.R6", "calls/casts inspected under number comparison", n, 15, inventory=True)
+
+
 def run(ctx):
     F = ctx.facts("core")
+    r6_exact_mixed_comparison(ctx, F)
     r4_slices(ctx, F)
     r5_sorted(ctx, F)
     r1_numeric(ctx, F)
